@@ -580,6 +580,12 @@ def run(res, args):
         d, changed = common.regenerate(b)
     ok, failing = common.proof_step(res, ['Wbxml.Props.C12'], 'Wbxml.Props.C12', extra_targets=['driver_typed'])
     res.coverage['regenerated'] = changed
+    if res.tier == 'thorough' and ok:
+        # second opinion on the compiled proofs (DESIGN §2.3 step 3)
+        lc = common.run(['lake', 'env', 'leanchecker', 'Wbxml.Props.C12'], cwd=common.LEAN)
+        res.coverage['leanchecker_rc'] = lc.returncode
+        if lc.returncode != 0:
+            failing.append('<leanchecker: ' + lc.stdout[-300:] + '>')
     known = [k for k in common.load_known()['findings'] if k['property'] == 'C12']
     known_ids = {k['match'].get('kf'): k for k in known}
     runner = Runner(b)
@@ -590,7 +596,10 @@ def run(res, args):
         impl, mod = runner.one(c), runner.model([c])[0]
         print(f'request : {c.line}\nimpl    : {impl}\nmodel   : {mod}\nexpected: {rp.get("expected")}')
         still = impl != mod or (rp.get('impl') == impl)
-        if still:
+        kf = known_ids.get('b64-ws-nostrip') if rp.get('stream') in ('ota-x2w-ws', 'drm-enc-ws') else None
+        if still and kf is not None and impl == mod:
+            res.known.append(f"{kf['id']}: {kf['what']}")
+        elif still:
             res.violation({'kind': 'replay', 'request': c.line, 'impl': impl, 'model': mod, 'expected': rp.get('expected')}, 'replay')
         return res.finish('proof', checker_cmd='replay of one TYPED line')
 
